@@ -1597,7 +1597,10 @@ func (d *decoderSimpleBytes) kInterfaceNaked(f *decFnInfo) (rvn reflect.Value) {
 		if bytes == nil {
 
 			if bfn == nil {
+
+				d.depthIncr()
 				d.decode(&re.Value)
+				d.depthDecr()
 				rvn = rv4iptr(&re).Elem()
 			} else if bfn.ext == SelfExt {
 				rvn = rvZeroAddrK(bfn.rt, bfn.rt.Kind())
@@ -5367,7 +5370,10 @@ func (d *decoderSimpleIO) kInterfaceNaked(f *decFnInfo) (rvn reflect.Value) {
 		if bytes == nil {
 
 			if bfn == nil {
+
+				d.depthIncr()
 				d.decode(&re.Value)
+				d.depthDecr()
 				rvn = rv4iptr(&re).Elem()
 			} else if bfn.ext == SelfExt {
 				rvn = rvZeroAddrK(bfn.rt, bfn.rt.Kind())
